@@ -20,12 +20,21 @@ func (s *Store) maxSizeEnforcer(maxSize int64) {
 			}
 			// Add message to all.
 			m := md.msg
+			if m.gone {
+				// Removed before it was registered, nothing to account for.
+				close(md.done)
+				continue
+			}
 			el := all.PushBack(m)
 			m.el = el
 			curSize += int64(m.Size())
 			for curSize > maxSize {
 				// Remove oldest message.
 				el := all.Front()
+				if el == nil {
+					// Everything left is already being removed by its deleter.
+					break
+				}
 				all.Remove(el)
 				m := el.Value.(*Message)
 				if s.removeMessage(m.mailbox, m.id) != nil {
@@ -39,8 +48,10 @@ func (s *Store) maxSizeEnforcer(maxSize int64) {
 			}
 			// Remove message from all.
 			m := md.msg
-			el := all.Remove(m.el)
-			if el != nil {
+			if m.el == nil {
+				// The removal overtook the registration of this message.
+				m.gone = true
+			} else if el := all.Remove(m.el); el != nil {
 				curSize -= int64(m.Size())
 			}
 			close(md.done)
